@@ -43,6 +43,14 @@ IsMaxWithQuot(lo, n, d, r) ==
     /\ Lt(n, Mul(Succ(r), d))                 \* floor(n/d) <= r
     /\ (r = lo \/ Le(Mul(r, d), n))           \* r = lo or r <= floor(n/d)
 
+(* get_validator_activation_churn_limit (deneb):
+     min(MAX_PER_EPOCH_ACTIVATION_CHURN_LIMIT, get_validator_churn_limit(state))
+   with get_validator_churn_limit = max(MIN_PER_EPOCH_CHURN_LIMIT, active // CHURN_LIMIT_QUOTIENT).
+   There is NO lower clamp: a cap below the minimum churn (also 0) is the result. *)
+IsActivationChurn(active, lo, d, cap, r) ==
+    LET capLeChurn == Le(cap, lo) \/ Le(Mul(cap, d), active)   \* cap <= max(lo, floor(active/d))
+    IN  IF capLeChurn THEN r = cap ELSE IsMaxWithQuot(lo, active, d, r)
+
 (* get_committee_count_per_slot:
    max(1, min(MAX_COMMITTEES_PER_SLOT, active // SLOTS_PER_EPOCH // TARGET_COMMITTEE_SIZE))
    with floor(floor(a/x)/y) = floor(a/(x*y)) *)
@@ -126,6 +134,11 @@ Post(e) ==
       [] e.fn = "GetChurnLimit" -> Ok(e) /\ IsMaxWithQuot(A(e, 2), A(e, 1), A(e, 3), e.r)
       \* a = <<phase0 churn limit, MAX_PER_EPOCH_ACTIVATION_CHURN_LIMIT>>; get_validator_activation_churn_limit
       [] e.fn = "ActivationChurnLimit" -> Ok(e) /\ e.r = MinB(A(e, 2), A(e, 1))
+      \* a = <<active, MIN_PER_EPOCH_CHURN_LIMIT, CHURN_LIMIT_QUOTIENT, MAX_PER_EPOCH_ACTIVATION_CHURN_LIMIT>>;
+      \* the helper composed with get_validator_churn_limit exactly as process_registry_updates uses it, under a
+      \* configuration that carries all three parameters (cap below / equal to / above the minimum churn)
+      [] e.fn = "ValidatorActivationChurnLimit" ->
+            Ok(e) /\ IsActivationChurn(A(e, 1), A(e, 2), A(e, 3), A(e, 4), e.r)
       \* a = <<active, SLOTS_PER_EPOCH, TARGET_COMMITTEE_SIZE, MAX_COMMITTEES_PER_SLOT>>
       [] e.fn = "CommitteeCount" -> Ok(e) /\ IsCommitteeCount(A(e, 1), A(e, 2), A(e, 3), A(e, 4), e.r)
       \* a = <<slot, span, minSlot (clock - disparity), maxSlot (clock + disparity)>>
